@@ -346,8 +346,9 @@ func (s *ccStress) round(r *rng.R, mode int) {
 //	A: resumes, sees closed, callFinalizer(n): n.delFuncs — run but never cleared by mBucket.delete — run again.
 //
 // The window in A cannot be held open without editing the code, so this is a stress of exactly these threads
-// (about 40 double runs per million trials on this machine).  OPT-IN: set VERIF_C17_STALE=<seconds>; the finding is
-// reported under cache.Close:stale-callFinalizer:delfunc-twice.
+// (about 40 double runs per million trials on the code before the repair of D30; none since mBucket.delete takes
+// the delFuncs out of the node).  Part of every C17 run as a regression detector: 3 s in the quick tier, 60 s in the
+// thorough tier (VERIF_C17_STALE=<seconds> overrides); reported under cache.Close:stale-callFinalizer:delfunc-twice.
 func c17StaleFinalizer(c *Ctx, seconds int) {
 	deadline := time.Now().Add(time.Duration(seconds) * time.Second)
 	trials, twice := 0, 0
@@ -397,9 +398,71 @@ type c17StaleVal struct{ n *int32 }
 
 func (v *c17StaleVal) Release() { atomic.AddInt32(v.n, 1) }
 
+// c17FinaliseUnderHandle replays Props/C17 `raceSched` (theorem close_race_finalises_under_handle) on the
+// implementation:
+//
+//	A: the last Handle.Release of node n (counter -> 0) stalls before n.r.mu.RLock() in unRefExternal
+//	B: Get(k) revives n (0 -> 1) and KEEPS the handle; Close(false)
+//	A: resumes, sees closed, callFinalizer(n): the value is released while B's handle is outstanding
+//	   (Handle.Value() of B's handle is nil from then on).
+//
+// A stress like c17StaleFinalizer (about 85 hits per million trials).  This is an OPEN defect of the code
+// (unRefExternal decides it holds the last reference before it synchronises with Close), so the stress is OPT-IN:
+// VERIF_C17_UNDER_HANDLE=<seconds>; reported under cache.Close:unRefExternal-race:finalised-under-handle.
+func c17FinaliseUnderHandle(c *Ctx, seconds int) {
+	deadline := time.Now().Add(time.Duration(seconds) * time.Second)
+	trials, hits := 0, 0
+	for time.Now().Before(deadline) && hits == 0 {
+		for i := 0; i < 2000 && hits == 0; i++ {
+			trials++
+			cc := cache.NewCache(cache.NewLRU(0))
+			var finRuns int32
+			v := &c17StaleVal{n: &finRuns}
+			hA := cc.Get(0, 1, func() (int, cache.Value) { return 1, v })
+			var start int32
+			var wg sync.WaitGroup
+			var hB *cache.Handle
+			wg.Add(2)
+			go func() {
+				defer wg.Done()
+				for atomic.LoadInt32(&start) == 0 {
+				}
+				hA.Release()
+			}()
+			go func() {
+				defer wg.Done()
+				for atomic.LoadInt32(&start) == 0 {
+				}
+				hB = cc.Get(0, 1, nil)
+				cc.Close(false)
+			}()
+			runtime.Gosched()
+			atomic.StoreInt32(&start, 1)
+			wg.Wait()
+			if hB != nil {
+				if f := atomic.LoadInt32(&finRuns); f != 0 || hB.Value() == nil {
+					hits++
+					c.Res.Violate("cache.Close:unRefExternal-race:finalised-under-handle",
+						fmt.Sprintf("trial %d: after Get, {Release || h := Get; Close(false)} the value was released %d time(s) while the handle h is outstanding (h.Value() = %v): Node.unRefExternal brought the counter to zero, the concurrent Get revived the node, Close(false) came before unRefExternal's RLock, which then saw `closed` and called callFinalizer", trials, f, hB.Value()),
+						map[string]interface{}{"kind": "targeted-stress", "trials": trials, "lean": "GoLevel.C17.close_race_finalises_under_handle"})
+				}
+				hB.Release()
+			}
+		}
+	}
+	c.Res.CountN("conc", "under-handle-trials", trials)
+}
+
 func c17Concurrent(c *Ctx) {
-	if sec, _ := strconv.Atoi(os.Getenv("VERIF_C17_STALE")); sec > 0 {
-		c17StaleFinalizer(c, sec)
+	staleSec := c.Scale(3, 60)
+	if sec, err := strconv.Atoi(os.Getenv("VERIF_C17_STALE")); err == nil {
+		staleSec = sec
+	}
+	if staleSec > 0 {
+		c17StaleFinalizer(c, staleSec)
+	}
+	if sec, _ := strconv.Atoi(os.Getenv("VERIF_C17_UNDER_HANDLE")); sec > 0 {
+		c17FinaliseUnderHandle(c, sec)
 	}
 	s := &ccStress{c: c, viol: map[string]string{}}
 	r := c.R.Fork()
